@@ -93,6 +93,11 @@ impl Segment {
             return false;
         }
 
+        // Nothing to emit (e.g. `.text ""`)? Then no address is written either: the range of the segment stays what it is
+        if bytes.is_empty() {
+            return true;
+        }
+
         if start.as_usize() < self.range.start || self.data.is_empty() {
             self.range.start = start.as_usize();
             log::trace!("Extending start of range to: {}", self.range.start);
